@@ -29,6 +29,9 @@ def _job(a):
         return [dict(name="canary", status="x", strength="aux", backend="z3", secs=0, aux=canary_shape(c, sh))]
     if kind == "canary2":
         return [dict(name="canary", status="x", strength="aux", backend="z3", secs=0, aux=canary_shape(c, sh, _modtable()))]
+    if kind == "L3":
+        from . import c01_l3
+        return c01_l3.job((c, sh[0], sh[1]))
     if kind == "cross":
         return [dict(name="cross", status="x", strength="aux", backend="cpython", secs=0, aux=crosscheck_shape(c, sh))]
     raise ValueError(kind)
@@ -71,7 +74,13 @@ def run(tier, only=None):
                                                                                    sh[1].BIT_SIZE if hasattr(sh[1], "BIT_SIZE") else 0) > 4:
                         continue
                     cross.append(("cross", c, sh))
-    rs = run_pool(_job, jobs + canaries + cross, chunksize=4)
+    l3 = []
+    if not only or only == "L3":
+        from . import c01_l3
+        from qlasskit.qlassfun import QlassF
+        l3 = [("L3", o, (src, prof)) for (o, src, prof) in c01_l3.jobs(tier)]
+        rep.under_contract(QlassF.from_function, QlassF.truth_table)
+    rs = run_pool(_job, jobs + canaries + cross, chunksize=4) + run_pool(_job, l3, chunksize=2)
     main = [r for r in rs if r.get("strength") != "aux"]
     aux = [r["aux"] for r in rs if r.get("strength") == "aux" and r["name"] == "canary"]
     crs = [r["aux"] for r in rs if r.get("strength") == "aux" and r["name"] == "cross"]
@@ -97,6 +106,11 @@ def run(tier, only=None):
                      dict(layer="L2", what="every AST node kind x every ordered pair of the 24 shipped scalar types; integer-constant operands from a fixed list; "
                                            "tuples of <= 3 scalars", complete="per node kind over the type pairs; constants and tuple shapes are a finite sample")],
         routes=dict(S=len(main), U=0),
+        L3_bounded=dict(family="program strings of the repository's tests + curated programs over every documented feature + outside-the-subset programs + "
+                               "seeded generator (bool programs <= 4 vars depth <= 3; Qint programs widths 2..4 depth <= 2)",
+                        bound="<= 12 argument bits per program; both optimizer profiles", all_values=True,
+                        programs=len({r.get("instance_key") for r in main if r.get("strength") == "bounded"}),
+                        outcomes={o: sum(1 for r in main if r.get("outcome") == o) for o in ("accepted", "rejected", "accepted-reference-rejects", "skipped")}),
         exhaustive=False,
     )
     rep.trusted = ["z3 4.x/5.1 (unsat answers)", "CPython 3.12 executing the instrumented source", "pyvc hooks (cross-checked against native runs on every check)",
